@@ -736,26 +736,36 @@ class Interp:
             self.call_depth -= 1
         return r
 
-    def call_constexpr(self, f: Func, e, fr):
-        """Ordinary Python evaluation of the decorated function (C12)."""
-        mod = f.module
-        ns: dict = {"HASH": hash_signed, "STR": str_pack, "constexpr": (lambda g: g)}
+    def _constexpr_ns(self, mod, _depth=0):
+        """Namespace in which the module's decorated functions are ordinary Python functions."""
         import enum as _enum
+        import math as _math
+        import types as _types
 
+        ns: dict = {"HASH": hash_signed, "STR": str_pack, "constexpr": (lambda g: g)}
         for ename, members in self.enum_tbl.items():
             ns[ename] = _enum.IntEnum(ename, members)
         ns.update(CONSTANTS)
         ns.update(tables.module_constants())
-        import math as _math
-
         for mf in MATH_FUNCS:
             ns[mf] = getattr(_math, mf)
+        if _depth == 0:
+            # library modules are visible under their import names
+            for alias, m in self.modules.items():
+                if alias and m is not mod:
+                    sub = self._constexpr_ns(m, 1)
+                    ns[alias] = _types.SimpleNamespace(**{k: v for k, v in sub.items() if callable(v)})
         for st in mod.tree.body:
             if isinstance(st, ast.FunctionDef) and any(
                 isinstance(d, ast.Name) and d.id == "constexpr" for d in st.decorator_list
             ):
                 code = compile(ast.Module(body=[st], type_ignores=[]), "<constexpr>", "exec")
                 exec(code, ns)
+        return ns
+
+    def call_constexpr(self, f: Func, e, fr):
+        """Ordinary Python evaluation of the decorated function (C12)."""
+        ns = self._constexpr_ns(f.module)
 
         def cval(a):
             v = self.eval(a, fr)
